@@ -131,9 +131,9 @@ def run(ctx):
 #    constructors' panic -> constructors now run under guarded(); re-run: VIOLATION)
 #  3 binary.rs try_bytes_to_words accepts len % 4 == 0                      caught (b2w: panic where None is required)
 #  4 light.rs from_parts builds ib_rank from the BP words                   caught (first run: Trace_JsonDoc crashed on a panic
-#    event without fields -> spec made total (`e.r # -2` first); re-run: see final report)
+#    event without fields -> spec made total (`e.r # -2` first); re-run: VIOLATION)
 #  5 light.rs from_parts passes bp_len - 1                                  not caught: EQUIVALENT through the JsonCursor API (only
 #    the root's own close is dropped; no cursor query reads it)
 #  6 standard.rs SemiIndex::from_bytes swaps ib and bp                      caught (rebuilt-semi: root cursor invalid)
 #  7 binary.rs cast_slice reintroduced in bytes_to_words_vec (= today's /repo) caught (b2w misaligned: panic)
-#  8 light.rs from_parts stores ib_len - 1                                  see final report
+#  8 light.rs from_parts stores ib_len - 1                                  caught (rebuilt index: select/text_position of a node starting at the last byte)
